@@ -27,6 +27,132 @@ def mentions_strict(e, depth=0):
     return any(mentions_strict(x, depth + 1) for x in e if isinstance(x, tuple))
 
 
+ALLOWED_ARGS = {("sim::mem::Word::get_if_init", 1), ("sim::mem::Word::set_if_init", 2)}
+
+
+def strict_sinks(F, b, tainted, depth):
+    """[(kind, name, ok, detail, line)] for every place a strict-dependent local of body b goes to.
+    A call argument is acceptable when it is the strict parameter of get_if_init/set_if_init, or when the callee is a
+    local function in which that parameter itself only reaches acceptable sinks (e.g. a constructor that stores it
+    in MemAccessCtx.strict) - followed two levels deep."""
+    out = []
+    for bi, si, st in b.stmts():
+        if st["k"] != "assign":
+            continue
+        rv = st["rv"]
+        if rv["k"] == "agg":
+            names = rv.get("field_names") or [str(i) for i in range(len(rv["fields"]))]
+            for nm, f in zip(names, rv["fields"]):
+                if f.get("k") in ("copy", "move") and not f["p"]["proj"] and f["p"]["l"] in tainted:
+                    ok = (rv.get("adt") or "").endswith("sim::MemAccessCtx") and nm == "strict"
+                    out.append(("field", "field:%s.%s" % ((rv.get("adt") or rv.get("agg") or "?").split("::")[-1], nm), ok,
+                                "a strict-dependent value is stored in %s.%s (allowed: only MemAccessCtx.strict)" % (rv.get("adt") or rv.get("agg"), nm), st["line"]))
+        if st["p"]["proj"] and st["p"]["proj"][0] == "deref" and rv["k"] == "use" and rv["op"].get("k") in ("copy", "move") and not rv["op"]["p"]["proj"] and rv["op"]["p"]["l"] in tainted:
+            out.append(("store", "store", False, "a strict-dependent value is stored through a reference", st["line"]))
+        if st["p"]["l"] == 0 and not st["p"]["proj"] and rv["k"] == "use" and rv["op"].get("k") in ("copy", "move") and not rv["op"]["p"]["proj"] and rv["op"]["p"]["l"] in tainted and depth > 0:
+            out.append(("return", "return", False, "the parameter is returned to the caller", st["line"]))
+    for bi, t, c, raw in b.calls():
+        for i, a in enumerate(t.get("args", [])):
+            if a.get("k") in ("copy", "move") and not a["p"]["proj"] and a["p"]["l"] in tainted:
+                ok = (c, i) in ALLOWED_ARGS
+                why = ""
+                if not ok and depth < 2 and c in F.bodies and not F.bodies[c].light:
+                    cb = F.bodies[c]
+                    inner = strict_sinks(F, cb, strict_dependent_locals(cb, seeds={i + 1}), depth + 1)
+                    ok = bool(inner) and all(x[2] for x in inner)
+                    why = " - inside %s that parameter goes to: %s" % (c.split("::")[-1], sorted(set(x[1] for x in inner)) or "nowhere")
+                out.append(("arg", "arg:%s#%d" % ((c or "?").split("::")[-1], i), ok,
+                            "a strict-dependent value is passed as argument %d of %s (allowed: the strict parameter of Word::get_if_init/set_if_init, or a parameter that only ends up in MemAccessCtx.strict)%s" % (i, c, why), t["line"]))
+    return out
+
+
+def _locals_read_in(b, blocks):
+    out = set()
+
+    def op(o):
+        if isinstance(o, dict) and o.get("k") in ("copy", "move"):
+            out.add(o["p"]["l"])
+            for e in o["p"]["proj"]:
+                if isinstance(e, dict) and "idx" in e:
+                    out.add(e["idx"])
+    for x in blocks:
+        blk = b.blocks[x]
+        for s in blk["stmts"]:
+            if s["k"] != "assign":
+                continue
+            rv = s["rv"]
+            for k in ("op", "l", "r", "x"):
+                if k in rv:
+                    op(rv[k])
+            for f in rv.get("fields", []):
+                op(f)
+            if rv["k"] in ("ref", "rawptr", "discr") and "p" in rv:
+                out.add(rv["p"]["l"])
+        t = blk["term"]
+        if t["k"] == "call":
+            for a in t.get("args", []):
+                op(a)
+        elif t["k"] == "switch":
+            op(t["discr"])
+    return out
+
+
+def strict_dependent_locals(b, seeds=None):
+    """locals whose value depends on a `strict` flag: read directly from a field named strict, assigned under a branch
+    on such a value (implicit flow: `strict && x` is a branch in MIR), or computed from such locals.
+    With `seeds`, the given locals (parameters) are the sources instead of the field reads."""
+    tainted = set(seeds or ())
+    for bi, si, s in b.stmts():
+        if seeds is None and s["k"] == "assign" and not s["p"]["proj"] and s["rv"]["k"] == "use" and s["rv"]["op"].get("k") in ("copy", "move"):
+            if any(isinstance(e, dict) and e.get("name") == "strict" for e in s["rv"]["op"]["p"]["proj"]):
+                tainted.add(s["p"]["l"])
+    changed = True
+    while changed:
+        changed = False
+        # implicit flows
+        for bi, t in b.terms("switch"):
+            d = t["discr"]
+            if not (d.get("k") in ("copy", "move") and not d["p"]["proj"] and d["p"]["l"] in tainted):
+                continue
+            succ = [tb for v, tb in t["values"]] + [t["otherwise"]]
+            reach = []
+            for s0 in succ:
+                seen = set()
+                st = [s0]
+                while st:
+                    x = st.pop()
+                    if x in seen:
+                        continue
+                    seen.add(x)
+                    st.extend(b.succs(x))
+                reach.append(seen)
+            common = set.intersection(*reach) if reach else set()
+            used_after = _locals_read_in(b, common)
+            for r in reach:
+                for x in r - common:
+                    for s in b.blocks[x]["stmts"]:
+                        if s["k"] == "assign" and not s["p"]["proj"] and s["p"]["l"] not in tainted and s["p"]["l"] != 0 and s["p"]["l"] in used_after:
+                            # only values that survive the join carry the flag's influence out of the region
+                            tainted.add(s["p"]["l"])
+                            changed = True
+        # explicit flows
+        for bi, si, s in b.stmts():
+            if s["k"] != "assign" or s["p"]["proj"] or s["p"]["l"] in tainted:
+                continue
+            rv = s["rv"]
+            ops = []
+            if rv["k"] in ("use", "cast"):
+                ops = [rv["op"]]
+            elif rv["k"] == "un":
+                ops = [rv["x"]]
+            elif rv["k"] == "bin":
+                ops = [rv["l"], rv["r"]]
+            if any(o.get("k") in ("copy", "move") and not o["p"]["proj"] and o["p"]["l"] in tainted for o in ops):
+                tainted.add(s["p"]["l"])
+                changed = True
+    return tainted
+
+
 def strict_true_edge(b, bi, t):
     """the successor taken when the strict-dependent discriminant is true (None if not boolean)"""
     zero = [tb for v, tb in t["values"] if v == 0]
@@ -174,6 +300,17 @@ def run(ck, ctx):
     if ws is not None:
         r = repr([ws.expr_of_rvalue(s["rv"]) for bi, si, s in ws.stmts() if s["k"] == "assign" and any(isinstance(e, dict) and e.get("name") == "init" for e in s["p"]["proj"])])
         ck.ob("C14.4", "Word::set-initialises", "ALL_BITS" in r or "65535" in r, "Word::set stores the full init mask", "src/sim/mem.rs:%s" % ws.line)
+    # ---- C14.4 where strict-dependent *values* may go (explicit and implicit flows)
+    n_sinks = 0
+    for b in sim_bodies:
+        tainted = strict_dependent_locals(b)
+        if not tainted:
+            continue
+        for kind, name, ok, detail, line in strict_sinks(F, b, tainted, 0):
+            n_sinks += 1
+            ck.ob("C14.4", "%s|%s" % (b.path, name), ok, detail, "%s:%s" % (b.file, line), nontrivial=not ok)
+    ck.floor("C14.4", "sinks of strict-dependent values", n_sinks, 8)
+    ck.include("C09", ctx, "C14.5", {"C09.3"}, "with and without strict the access context must be the machine's own (privilege never derived from the strict flag)")
     ck.include("C15", ctx, "C14.3", None, "initialised operands give initialised results")
     ck.assume("Word operators map fully initialised operands to fully initialised results (C15)")
     ck.assume("the access observer, devices and frame stack are not consulted by strict-only code (follows from the pure-region rule)")
